@@ -4,7 +4,7 @@
    file of its own so that coq/C07, which imports C06.Properties read-only, is not rebuilt, and so that the two files'
    Print Assumptions runs proceed in parallel. *)
 From Coq Require Import ZArith.
-From C06 Require Import Model ModelNative ProofsBase ProofsSigned ProofsNative ProofsNative2 ProofsNative3 ProofsNativeEx.
+From C06 Require Import Model ModelNative ProofsBase ProofsSigned ProofsNative ProofsNative2 ProofsNative3 ProofsNativeEx ModelCount ProofsCount.
 Local Open Scope Z_scope.
 
 Theorem C06_compare_native_exact : Cmp_native_exact. Proof. exact cmp_native_exact. Qed.
@@ -43,3 +43,7 @@ Theorem C06_decimal_output_exact : Display_dec_exact. Proof. exact display_dec_e
 Print Assumptions C06_decimal_output_exact.
 Theorem C06_max_constants_exact : Max_constants_exact. Proof. exact max_constants_exact. Qed.
 Print Assumptions C06_max_constants_exact.
+Theorem C06_shift_count_conversions_exact : Shift_count_conversions_exact. Proof. exact shift_count_conversions_exact. Qed.
+Print Assumptions C06_shift_count_conversions_exact.
+Theorem C06_addmul_word_exact : Addmul_word_exact.  Proof. exact addmul_word_exact. Qed.
+Print Assumptions C06_addmul_word_exact.
